@@ -399,6 +399,7 @@ func (st *c37State) one(c Case, class string) string {
 	pt := newPosTable(input)
 	lines := int(pt.line[n])
 	msg, finding, usedDrift := checkTokens(input, first, pt, st.knownFS2)
+	overrun := msg != "" && finding == "FS47" && st.rec.Known("FS47") && !st.replay // the last token ends behind the input
 	if msg != "" {
 		if finding != "" && st.rec.Known(finding) && !st.replay {
 			rec.Excluded(finding)
@@ -465,6 +466,12 @@ func (st *c37State) one(c Case, class string) string {
 					outcome = "parse-error-FS8"
 					continue
 				}
+				if overrun && strings.Contains(text, "slice bounds out of range") {
+					// consequence of FS47: the parser takes the source text of the token that ends behind the input
+					rec.Excluded("FS47")
+					outcome = "parse-error-FS47"
+					continue
+				}
 				if strings.Contains(text, "parser did not make progress") && strings.Contains(text, "parser.parseSwitchCases(") && rec.Known("FS48") && !st.replay {
 					// FS48: switch cases followed by an unterminated string template: parseSwitchCases stops consuming tokens
 					rec.Excluded("FS48")
@@ -474,6 +481,9 @@ func (st *c37State) one(c Case, class string) string {
 				return fmt.Sprintf("parser reported an internal error: %.1800s", text)
 			}
 			if m, unset := checkPositioned(child, n, lines); m != "" {
+				if overrun && strings.Contains(m, "outside the input") {
+					continue // consequence of FS47: positions derived from the overrunning token
+				}
 				if unset && st.knownFS5 {
 					rec.Excluded("FS5")
 					rec.Class(fmt.Sprintf("unset-position/%T", child))
@@ -827,7 +837,7 @@ func TestC37(t *testing.T) {
 		rec.Inconclusive(t, "harvested only %d snippets from the repository tests", len(corpus))
 	}
 	rec.Extra("harvested_snippets", len(corpus))
-	N := evid.N(30_000, 300_000)
+	N := evid.N(30_000, 120_000)
 	layout := func() srcgen.Layout {
 		return srcgen.Layout{Comments: []float64{0, 0.05, 0.2, 0.5}[r.Intn(4)], Semicolons: r.Float64() * 0.5, BlankLines: r.Float64() * 0.3,
 			Compact: r.Float64(), NonASCII: true, DocComments: r.Intn(2) == 0, IndentSpaces: 1 + r.Intn(4)}
